@@ -111,6 +111,83 @@ func (w *World) ImplKeys(ifaceKey string) []string {
 	return out
 }
 
+// Overrides lists, for an interface-method contract key, the functions of the module that some type implementing the
+// interface declares for that method itself (not promoted from an embedded type that is coupled with the interface), split
+// into those under contract and those without one. A model contract says nothing about an implementation that was never
+// checked against it: an override without a contract leaves what callers assume about the method unestablished.
+func (w *World) Overrides(ifaceKey string) (contracted, uncontracted []string) {
+	if !strings.HasPrefix(ifaceKey, "(") {
+		return nil, nil
+	}
+	i := strings.Index(ifaceKey, ")")
+	tn, m := ifaceKey[1:i], strings.TrimPrefix(ifaceKey[i+1:], ".")
+	j := strings.LastIndex(tn, ".")
+	if j < 0 {
+		return nil, nil
+	}
+	tp := w.TypesPkg(tn[:j])
+	if tp == nil {
+		return nil, nil
+	}
+	obj, ok := tp.Scope().Lookup(tn[j+1:]).(*types.TypeName)
+	if !ok {
+		return nil, nil
+	}
+	it, ok := obj.Type().Underlying().(*types.Interface)
+	if !ok {
+		return nil, nil
+	}
+	coupled := map[string]bool{}
+	for _, k := range w.ImplKeys(ifaceKey) {
+		coupled[k] = true
+	}
+	seen := map[string]bool{}
+	for _, pk := range w.Prog.Pkgs {
+		if pk.Types == nil {
+			continue
+		}
+		sc := pk.Types.Scope()
+		for _, name := range sc.Names() {
+			tno, ok := sc.Lookup(name).(*types.TypeName)
+			if !ok || tno.IsAlias() {
+				continue
+			}
+			if _, isIface := tno.Type().Underlying().(*types.Interface); isIface {
+				continue
+			}
+			if nt, ok := tno.Type().(*types.Named); ok && nt.TypeParams().Len() > 0 {
+				continue
+			}
+			pt := types.NewPointer(tno.Type())
+			if !types.Implements(pt, it) && !types.Implements(tno.Type(), it) {
+				continue
+			}
+			mo, _, _ := types.LookupFieldOrMethod(pt, true, pk.Types, m)
+			fo, ok := mo.(*types.Func)
+			if !ok {
+				continue
+			}
+			fn := w.Prog.SSA.FuncValue(fo)
+			if fn == nil || fn.Blocks == nil || !w.Prog.InModule(pkgPathOf(fn)) {
+				continue
+			}
+			k := FuncKey(fn)
+			if seen[k] || coupled[k] {
+				continue
+			}
+			seen[k] = true
+			if fs := w.Contracts[k]; fs != nil {
+				contracted = append(contracted, k)
+			} else {
+				uncontracted = append(uncontracted, k)
+			}
+		}
+	}
+	sort.Strings(contracted)
+	sort.Strings(uncontracted)
+	return
+}
+
 // ContractKind classifies a contract key for the evidence: "interface-model" (contract of an interface method, a model
 // that in-repo implementations are assumed to satisfy), "trusted", "external", "verified" (has a body and a unit) or "".
 func (w *World) ContractKind(key string) string {
